@@ -192,7 +192,7 @@ def sample(ty, good=True):
 FIELD_ACTIONS = ['none', 'add_req', 'add_default', 'add_kw', 'kw_marker_add', 'redeclare_type', 'redeclare_default', 'add_conv']
 OPTIONS = [None, ('in_format', ['tuple', 'struct']), ('rename', 'camel'), ('allow_extra', True), ('kw_only', True), ('frozen', False), ('custom', 'x3')]
 ROOT_KINDS = ['nongeneric', 'generic1', 'generic2']
-FORMS = ['plain', 'bind_all', 'forward', 'swap', 'partial_redeclare', 'generic_reorder', 'nested_arg']
+FORMS = ['plain', 'bind_all', 'forward', 'swap', 'partial_redeclare', 'generic_reorder', 'nested_arg', 'regeneric']
 
 
 def programs(tier):
@@ -218,8 +218,8 @@ def programs(tier):
                             idx += 1
                             # depth 3: restricted alphabet
                             if oi == 0 and fty == 0 and (tier == 'thorough' or ti in (1, 2, 8, 10)):
-                                for form2 in ('plain', 'bind_all', 'forward', 'nested_arg'):
-                                    for fa2 in ('none', 'add_default', 'redeclare_type'):
+                                for form2 in ('plain', 'bind_all', 'forward', 'nested_arg', 'regeneric'):
+                                    for fa2 in ('none', 'add_default', 'redeclare_type') + (('add_req_var',) if form2 == 'regeneric' else ()):
                                         for oi2 in ((0, 3, 5) if tier == 'quick' else range(len(OPTIONS))):
                                             yield idx, [root, lvl, {'form': form2, 'action': fa2, 'ftype': 0, 'opt': oi2}]
                                             idx += 1
@@ -229,7 +229,7 @@ def form_applicable(form, root_kind):
     n = {'nongeneric': 0, 'generic1': 1, 'generic2': 2}[root_kind]
     if form == 'plain':
         return True
-    if n == 0:
+    if n == 0 or form == 'regeneric':      # (regeneric only makes sense below a level that bound everything: used at depth 3)
         return False
     if form in ('swap', 'partial_redeclare', 'generic_reorder'):
         return n == 2
@@ -303,7 +303,14 @@ def realise(pane, prog):
             m = pm.copy()
             form = lvl['form']
             explicit_generic = None
-            if form == 'plain' or not pm.params:
+            if form == 'regeneric' and not pm.params and prog[0]['kind'] != 'nongeneric':
+                # every variable is bound further up; this level is generic AGAIN, over the very TypeVar object the root used:
+                # the old binding concerns the inherited fields only, the new variable only the fields declared from here on
+                base = parent
+                binding = {}
+                explicit_generic = ['T']
+                m.params = ['T']
+            elif form in ('plain', 'regeneric') or not pm.params:      # (regeneric above a still generic parent: plain inheritance)
                 base = parent
                 binding = {}
             else:
@@ -360,6 +367,11 @@ def realise(pane, prog):
             if act == 'add_req':
                 m.fields.append({'name': newname, 'type': fty, 'has_default': False, 'default': None, 'kw_only': lvl_kw})
                 ns['__annotations__'][newname] = build_type(pane, fty)
+            elif act == 'add_req_var':
+                vt = ['var', var] if var else 'str'
+                m.fields.append({'name': newname, 'type': vt, 'has_default': False, 'default': None, 'kw_only': True})
+                ns['__annotations__'][newname] = build_type(pane, vt)
+                ns[newname] = pane.field(kw_only=True)
             elif act == 'add_default':
                 m.fields.append({'name': newname, 'type': 'int', 'has_default': True, 'default': 7, 'kw_only': lvl_kw})
                 ns['__annotations__'][newname] = int
